@@ -235,6 +235,7 @@ def run(chk):
     shutdown_fault(chk)
     two_connections(chk)
     crash_then_reconnect(chk)
+    backlog_at_goodbye(chk)
     chk.sample('play', {'proto': runs[0][0], 'history': repr(runs[0][1])[:200]}, k=1)
     chk.assumptions += ['the networking thread is run synchronously by the simulated transport; the server closes / stays idle after its script',
                         'packet ids of the server frames are looked up through pyCraft\'s tables (checked by C06/C07)']
@@ -385,6 +386,51 @@ def crash_then_reconnect(chk):
             if what:
                 chk.violation('crash-then-reconnect', 'crash-then-reconnect:%d:%d' % (pv, burst), {'case': {'proto': pv, 'burst': burst}, 'observed': what},
                               'protocol %d, session ended by end of stream behind %d keep-alives, then connect(): %s' % (pv, burst, what))
+
+
+def backlog_at_goodbye(chk):
+    """The application has a long backlog of its own packets queued (an early listener queues 320 chat lines when the first
+    keep-alive arrives) when the server says goodbye in the same batch: the documented flush writes ALL of it - the 320 lines,
+    and behind them the answer to the keep-alive - before the connection closes."""
+    from minecraft.networking.connection import Connection
+    from minecraft.networking.packets import clientbound as cb, serverbound as sb
+    for pv in (47, 340, 757):
+        ids = proto.Ids(pv)
+        for thr, backlog in ((None, 320), (64, 320), (None, 299), (None, 301), (None, 650)):
+            pre = [proto.frame(ids.set_compression, proto.varint(thr))] if thr is not None else []
+            frames = pre + [proto.frame(ids.login_success, ids.b_login_success(), thr), proto.frame(ids.keep_alive, ids.b_keep_alive(77), thr),
+                            proto.frame(ids.play_disconnect, proto.string('{"text":"bye"}'), thr)]
+            net = sim.Net([sim.Server([b''.join(frames)], end='idle')]).install()
+            exits, excs, done = [], [], []
+            try:
+                conn = Connection('localhost', 25565, username='user', allowed_versions={pv}, handle_exit=lambda: exits.append(1), handle_exception=lambda e, i: excs.append(e))
+
+                def flood(p):
+                    if not done:
+                        done.append(1)
+                        for k in range(backlog):
+                            c = sb.play.ChatPacket()
+                            c.message = 'line %d' % k
+                            conn.write_packet(c)
+                conn.register_packet_listener(flood, cb.play.KeepAlivePacket, early=True)
+                conn.connect()
+                net.run_threads(conn)
+            finally:
+                net.uninstall()
+            chk.count('backlog-at-goodbye', [pv, thr, backlog], True)
+            what = None
+            try:
+                fr = proto.parse_frames(b''.join(net.servers[0].sends), thr_at=2 if thr is not None else None)[2:]
+                chat_id = sb.play.ChatPacket.get_id(ids.ctx)
+                chats = sum(1 for pid, _b in fr if pid == chat_id)
+                answers = [a[1] for a in decode_answers(ids, [f for f in fr if f[0] != chat_id])]
+                if chats != backlog or answers != [77] or exits != [1] or excs:
+                    what = '%d of %d queued lines on the wire, keep-alive answers %s (expected [77]), exit callbacks %d, errors %s' % (chats, backlog, answers, len(exits), [exn_name(e) for e in excs])
+            except Exception as e:
+                what = 'what the server received is unparseable (%s)' % exn_name(e)
+            if what:
+                chk.violation('backlog-at-goodbye', 'backlog-at-goodbye:%d:%s:%d' % (pv, thr, backlog), {'case': {'proto': pv, 'threshold': thr, 'queued_lines': backlog}, 'observed': what},
+                              'protocol %d threshold %s, %d lines queued when the server disconnects: %s' % (pv, thr, backlog, what))
 
 
 def shutdown_fault(chk):
